@@ -35,6 +35,7 @@ SPACES = {
     "owen": (None, 4, 1, True),
     "vana": (None, 5, 1, True),
     "vanaowen": (None, 5, 1, True),
+    "proj": (None, 3, 1, True),
 }
 
 
@@ -128,9 +129,9 @@ def kvline(o):
 
 
 def parse_q(s):
-    if s == "-":
+    if s in ("-", ""):
         return []
-    return [None if x == "?" else int(x) for x in s.split(",")]
+    return [None if x in ("?", "x") else int(x) for x in s.split(",")]
 
 
 def oracle(script, out, segs=None):
@@ -139,7 +140,8 @@ def oracle(script, out, segs=None):
     segment count formula."""
     cfg = parse_header(script[0])
     tree, nreals, _nf, hinted = space_info(cfg)
-    stats = {"n0_invalid_excluded": 0, "ambiguous": 0, "calls": 0, "nontrivial": 0, "nopath": 0, "f75": [], "box": 0, "gms": 0}
+    stats = {"n0_invalid_excluded": 0, "ambiguous": 0, "calls": 0, "nontrivial": 0, "nopath": 0, "f75": [], "box": 0, "gms": 0,
+             "narrow": [], "constrained": 0}
     if len(out) < len(script) - 1:
         return (len(out), "implementation stopped early (crash or sanitizer report)"), stats
     inv = set()
@@ -202,6 +204,15 @@ def oracle(script, out, segs=None):
             continue
         # cm2 / cm3 / cm3n
         kv = kvline(o)
+        if cfg["space"] == "proj":
+            f = constrained_oracle(op, t, kv, inv, stats, i, pair_verdicts)
+            c1 = kv["cnt"].split("->")[1]
+            if prev_cnt is not None and tuple(map(int, kv["cnt"].split("->")[0].split("/"))) != prev_cnt:
+                return (i, "motion counters changed between calls"), stats
+            prev_cnt = tuple(map(int, c1.split("/")))
+            if f:
+                return (i, f), stats
+            continue
         n = int(kv["n"])
         q = parse_q(kv["q"])
         v = int(kv["v"])
@@ -225,6 +236,7 @@ def oracle(script, out, segs=None):
                 return (i, "%s returned 1 although getPath found no path between the states" % op), stats
             if (a1 - a0, b1 - b0) == (0, 0):
                 stats["f75"].append(i)      # reported by judge() as its own narrow record (F75)
+                stats["narrow"].append((i, "dubins3d-nopath-uncounted"))
             elif (a1 - a0, b1 - b0) != (0, 1):
                 return (i, "%s returned 0 (no path) and advanced valid/invalid counters by +%d/+%d" % (op, a1 - a0, b1 - b0)), stats
             continue
@@ -286,6 +298,67 @@ def oracle(script, out, segs=None):
             return (i, "%s returned %d and advanced valid/invalid counters by +%d/+%d (must be exactly one, by one)"
                     % (op, v, a1 - a0, b1 - b0)), stats
     return None, stats
+
+
+def constrained_oracle(op, t, kv, inv, stats, i, pair_verdicts):
+    """ConstrainedMotionValidator: the subdivision is the manifold traversal (indices 1..n-1) plus the end state (n).
+    Deviations that are exactly one of the recorded findings F120-F122 go to stats["narrow"]; anything else fails."""
+    n, v = int(kv["n"]), int(kv["v"])
+    reached, sat = kv["reached"] == "1", kv["sat"] == "1"
+    qraw = kv["q"].split(",")
+    if qraw and qraw[-1] == "x" and not reached:
+        qraw = qraw[:-1]       # the candidate a traversal that gave up looked at last (not a state of the motion)
+    q = parse_q(",".join(qraw) if qraw else "-")
+    stats["calls"] += 1
+    stats["constrained"] += 1
+    if n >= 3:
+        stats["nontrivial"] += 1
+    idx = list(range(1, n + 1))
+    if any(x is None for x in q):
+        return "isValid was asked about a state that is neither s2 nor a state of the manifold traversal"
+    if any(x not in idx for x in q):
+        return "isValid was asked about traversal index %s outside [1,%d]" % ([x for x in q if x not in idx][0], n)
+    bad = [j for j in idx if j in inv]
+    interior_bad = [j for j in bad if j < n]
+    ev = 1 if (sat and reached and not bad) else 0
+    if v == 1 and (interior_bad or not sat or not reached):
+        return "%s returned 1 but traversal states %s are invalid / sat=%d reached=%d" % (op, interior_bad[:3], sat, reached)
+    if v == 0 and ev == 1:
+        return "%s returned 0 for a motion whose traversal arrives with every state and the end state valid" % op
+    if v == 1 and n not in q:
+        # the end state was never validated (and, when it is invalid, the motion was accepted)
+        stats["narrow"].append((i, "constrained-end-state-unvalidated"))
+    if v == 1 and set(range(1, n)) - set(q):
+        return "valid verdict although traversal state(s) %s were never checked" % sorted(set(range(1, n)) - set(q))[:3]
+    key = (" ".join(t[1:]), frozenset(inv))
+    pair_verdicts.setdefault(key, {})[op] = v
+    if len(set(pair_verdicts[key].values())) > 1:
+        return "the two forms of checkMotion disagree on the same pair and predicate: %s" % pair_verdicts[key]
+    c0, c1 = kv["cnt"].split("->")
+    a0, b0 = map(int, c0.split("/"))
+    a1, b1 = map(int, c1.split("/"))
+    if (a1 - a0, b1 - b0) == (0, 0):
+        stats["narrow"].append((i, "constrained-uncounted"))
+    elif (a1 - a0, b1 - b0) != ((1, 0) if v else (0, 1)):
+        return "%s returned %d and advanced valid/invalid counters by +%d/+%d" % (op, v, a1 - a0, b1 - b0)
+    if op in ("cm3", "cm3n"):
+        if v == 1:
+            if kv["lv"] != "untouched" or kv["lvs"] not in ("untouched", "null"):
+                return "lastValid was written although the motion is valid (lv=%s lvs=%s)" % (kv["lv"], kv["lvs"])
+        else:
+            if kv["lv"] == "untouched":
+                stats["narrow"].append((i, "constrained-lastvalid-second-unwritten"))
+            else:
+                f = bits2f(kv["lv"])
+                if not (0.0 <= f < 1.0):
+                    return "last-valid fraction %r outside [0,1)" % f
+            want = "g%d" % ((interior_bad[0] - 1) if interior_bad else (n - 1))
+            if op == "cm3" and kv["lvs"] == "untouched":
+                if kv["lv"] != "untouched":
+                    return "lastValid.second written but lastValid.first left untouched"
+            elif op == "cm3" and kv["lvs"] != want:
+                return "lastValid.first is traversal state %s, the last state with a valid prefix is %s" % (kv["lvs"], want)
+    return None
 
 
 def ms_spec(count, endpoints, alloc, size):
@@ -748,6 +821,7 @@ def account(ck, tag, script, impl, stats):
     ck.count("excluded:ambiguous subdivision (identical interpolants)", stats["ambiguous"])
     ck.count("dubins3d: getPath found no path (must answer false and count one invalid motion)", stats["nopath"])
     ck.count("calls under a geometric (box) predicate", stats["box"])
+    ck.count("calls of the ConstrainedMotionValidator", stats["constrained"])
     cfg = parse_header(script[0])
     last_inv = ""
     for i, ln in enumerate(script[1:]):
@@ -782,7 +856,10 @@ def canon(lines, skip=()):
         if i in skip:
             out.append("<skipped: recorded finding>")
             continue
-        out.append(_CNT.sub(lambda m: "cnt=+%d/+%d" % (int(m.group(3)) - int(m.group(1)), int(m.group(4)) - int(m.group(2))), l))
+        l = _CNT.sub(lambda m: "cnt=+%d/+%d" % (int(m.group(3)) - int(m.group(1)), int(m.group(4)) - int(m.group(2))), l)
+        if " reached=" in l:            # constrained validator: the fraction is a ratio of distances (C16 models it)
+            l = re.sub(r" lv=\d+", " lv=written", l)
+        out.append(l)
     return out
 
 
@@ -798,19 +875,19 @@ def diff(ck, impl, model, skip=()):
     return ck.first_diff(a, b)
 
 
-def report_f75(ck, hbin, script, impl, hits, cfg):
-    """Dubins3D no-path calls that advanced neither counter: one narrow record (F75), with a minimal replay."""
+def report_narrow(ck, hbin, script, what, hits, cfg):
+    """a deviation that is exactly one of the recorded findings (F75, F120-F123): its own narrow record, minimal replay."""
     i = hits[0]
     hint = [l for l in script[1:1 + i] if l.startswith("hint")][-1:]
     inv = [l for l in script[1:1 + i] if l.startswith("invalid")][-1:]
     small = [script[0]] + inv + hint + [script[1 + i]]
     o, _rc, _e, m = run_script(ck, hbin, small)
-    ck.count("dubins3d no-path calls that counted nothing (F75)", len(hits))
-    new = ck.report({"engine": "motion", "what": "dubins3d-nopath-uncounted", "validator": cfg["validator"],
-                     "form": script[1 + i].split()[0]},
+    ck.count("narrow:" + what, len(hits))
+    validator = "constrained" if cfg["space"] in ("proj", "tb") else cfg["validator"]
+    new = ck.report({"engine": "motion", "what": what, "validator": validator, "form": script[1 + i].split()[0]},
                     script=small, expected=m, observed=o, engine="motion")
     if new:
-        ck.log("property failure: Dubins3DMotionValidator returned false (no path) without advancing a counter [%s]" % cfg["space"])
+        ck.log("property failure [%s]: %s" % (cfg["space"], what))
     return new
 
 
@@ -824,12 +901,13 @@ def judge(ck, hbin, tag, script, segs_by_text=None, pre=None):
     elif rc not in (0,) and "stopped early" in fail[1]:
         summ = [l for l in (err or "").splitlines() if "SUMMARY" in l or "runtime error" in l]
         fail = (fail[0], fail[1] + (": " + summ[0].strip()[:200] if summ else ""))
-    skip = set(stats["f75"])
-    if skip:
-        key = ("f75", cfg["validator"], script[1 + stats["f75"][0]].split()[0])
+    skip = set(i for i, _w in stats["narrow"])
+    for what in sorted(set(w for _i, w in stats["narrow"])):
+        hits = [i for i, w in stats["narrow"] if w == what]
+        key = ("narrow", what, cfg["validator"], script[1 + hits[0]].split()[0])
         if key not in _reported:
             _reported.add(key)
-            report_f75(ck, hbin, script, impl, stats["f75"], cfg)
+            report_narrow(ck, hbin, script, what, hits, cfg)
     d = diff(ck, impl, model, skip)
     if fail is None and d is not None:
         found = targeted_search(ck, hbin, script, impl, model, d, segs_by_text)
@@ -864,11 +942,11 @@ def judge(ck, hbin, tag, script, segs_by_text=None, pre=None):
             s = [hdr] + [l for g in gs for l in g]
             o, r2, e2, m = run_script(ck, hbin, s)
             _f, st2 = oracle(s, o, None)
-            return diff(ck, o, m, set(st2["f75"])) is not None
+            return diff(ck, o, m, set(i for i, _w in st2["narrow"])) is not None
         kept = core.ddmin(split_groups(script), still, max_tests=120)
         small = [hdr] + [l for g in kept for l in g]
         o, r2, e2, m = run_script(ck, hbin, small)
-        dd = diff(ck, o, m, set(oracle(small, o, None)[1]["f75"]))
+        dd = diff(ck, o, m, set(i for i, _w in oracle(small, o, None)[1]["narrow"]))
         ck.report({"engine": "motion", "what": "model/implementation disagreement"}, script=small, expected=m, observed=o,
                   found_input=False, engine="motion",
                   obligation="correspondence motion: motion validators vs OmplModel.Model.Motion (first differing line %s: impl %r, model %r)"
@@ -901,6 +979,89 @@ def hinted_scripts(ck, hbin, r, tier):
                 lines += group(a, b, rnd_inv(r, n, kind), hint=hint)
         out.append(("hinted-%s-%s" % (cfg["space"], cfg["validator"]), lines, segs))
     return out
+
+
+def proj_scripts(ck, hbin, r, tier):
+    """ConstrainedMotionValidator on the unit sphere (ProjectedStateSpace): pairs a known angle apart (identical,
+    closer than delta, several steps), an end state off the manifold; the traversal length n-1, whether it arrives and
+    isSatisfied(s2) are measured on the real code with validity checking off and handed to the model as a hint."""
+    out = []
+    for rep in range(4 if tier == "thorough" else 2):
+        delta = r.choice([0.05, 0.1, 0.02])
+        cfg = {"space": "proj", "validator": "default", "frac": 0.01, "lo": -2.0, "hi": 2.0, "dim": 1, "f": [1], "rho": delta}
+        pairs = []
+        for p in range(30 if tier == "thorough" else 12):
+            th, ph = r.uniform(0.3, math.pi - 0.3), r.uniform(-math.pi, math.pi)
+            a = [math.sin(th) * math.cos(ph), math.sin(th) * math.sin(ph), math.cos(th)]
+            # rotate about an axis orthogonal to a by the angle ang
+            t1 = [math.cos(th) * math.cos(ph), math.cos(th) * math.sin(ph), -math.sin(th)]
+            c = r.below(8)
+            ang = 0.0 if c == 0 else r.uniform(0.0, delta * 0.9) if c == 1 else r.uniform(delta, 1.2)
+            b = [x * math.cos(ang) + y * math.sin(ang) for x, y in zip(a, t1)]
+            if c == 7:
+                b = [x * 1.3 for x in b]                     # end state off the manifold
+            pairs.append((a, b))
+        # (the three-argument form always runs the traversal, also for an end state off the manifold)
+        pre = [header(cfg), "invalid idx"] + ["cm3 %s %s" % (st(a), st(b)) for a, b in pairs]
+        o, rc, err = run_harness(ck, hbin, pre)
+        if rc != 0 or o is None or len(o) != len(pre) - 1:
+            out.append(("proj", pre, None))
+            continue
+        lines = [header(cfg)]
+        for (a, b), ol in zip(pairs, o[1:]):
+            kv = kvline(ol)
+            n = int(kv["n"])
+            hint = "hint %d %s %s %d" % (n, kv["reached"], kv["sat"], 1 if kv["q"].endswith("x") else 0)
+            for kind in ["none", "end", "first", r.choice(KINDS), r.choice(KINDS)]:
+                inv = rnd_inv(r, n, kind)
+                forms = ("cm2", "cm3", "cm3n") if r.chance(1, 2) else ("cm2", "cm3")
+                lines += ["invalid idx" + "".join(" %d" % j for j in sorted(inv)), hint] + \
+                         ["%s %s %s" % (f, st(a), st(b)) for f in forms]
+        out.append(("proj", lines, None))
+    return out
+
+
+def tb_wrapper_check(ck, hbin):
+    """TangentBundleSpaceInformation::checkMotion(s1,s2,lastValid) wraps the validator and re-projects lastValid.first.
+    Harness-only (no model run): on a VALID motion the caller's storage must come back untouched and the verdict must equal
+    the two-argument form whatever that storage held.  Deviations are the narrow record F123."""
+    cfg = {"space": "tb", "validator": "default", "frac": 0.01, "lo": -2.0, "hi": 2.0, "dim": 1, "f": [1], "rho": 0.05}
+    a, b = [1.0, 0.0, 0.0], [math.cos(0.5), math.sin(0.5), 0.0]
+    base = [header(cfg), "invalid idx", "cm2 %s %s" % (st(a), st(b)), "cm3 %s %s" % (st(a), st(b)),
+            "cm3x %s %s %s" % (st(a), st(b), st([0.0, 1.0, 0.0])), "cm3x %s %s %s" % (st(a), st(b), st([0.3, 0.2, 0.1]))]
+    crash = [header(cfg), "invalid idx", "cm3x %s %s %s" % (st(a), st(b), st([0.0, 0.0, 0.0]))]
+    hits = []
+    for script in (base, crash):
+        o, rc, err = run_harness(ck, hbin, script)
+        o = o or []
+        ck.traces_validated += 1
+        ck.count("scripts:tb-wrapper")
+        for ln, ol in zip(script[1:], o):
+            op = ln.split()[0]
+            if op not in ("cm2", "cm3", "cm3x"):
+                continue
+            ck.case((script[0], ln), True)
+            ck.count("op:" + op)
+            kv = kvline(ol)
+            if kv["v"] != "1":
+                hits.append((script, "verdict %s on a valid motion (%s)" % (kv["v"], op)))
+            if op == "cm3" and kv["lvs"] != "untouched":
+                hits.append((script, "lastValid.first was modified by a successful check (lvs=%s)" % kv["lvs"]))
+            if op == "cm3x" and kv["first"] != "same":
+                hits.append((script, "lastValid.first was modified by a successful check"))
+            if op != "cm2" and kv["lv"] != "untouched":
+                hits.append((script, "lastValid.second written by a successful check"))
+        if rc != 0 or len(o) < len(script) - 1:
+            summ = [l for l in (err or "").splitlines() if "SUMMARY" in l]
+            hits.append((script, "crash while re-projecting the caller's lastValid.first after a valid motion: %s" % (summ[0][:160] if summ else rc)))
+    if hits:
+        script, why = hits[0]
+        ck.count("narrow:tb-wrapper-touches-lastvalid-on-success", len(hits))
+        o, rc, err = run_harness(ck, hbin, script)
+        new = ck.report({"engine": "motion", "what": "tb-wrapper-touches-lastvalid-on-success", "validator": "constrained", "form": "cm3"},
+                        script=script, expected=["(valid motion: v=1, lastValid untouched)"], observed=(o or []) + [why], engine="motion")
+        if new:
+            ck.log("property failure [tb]: " + "; ".join(sorted(set(w for _s, w in hits)))[:400])
 
 
 def corpus():
@@ -954,6 +1115,9 @@ def run(ck):
         jobs.append((tag, s, None))
     for tag, s, segs in hinted_scripts(ck, hbin, r.fork("hinted"), ck.tier):
         jobs.append((tag, s, segs))
+    for tag, s, segs in proj_scripts(ck, hbin, r.fork("proj"), ck.tier):
+        jobs.append((tag, s, segs))
+    tb_wrapper_check(ck, hbin)
     bad = 0
     _reported.clear()
     # corpus first (sequential), then the rest in parallel
@@ -976,8 +1140,8 @@ def replay(ck, data):
     script = data["script"]
     impl, rc, err, model = run_script(ck, hbin, script)
     fail, st_ = oracle(script, impl)
-    if fail is None and st_["f75"]:
-        fail = (st_["f75"][0], "Dubins3DMotionValidator returned false (getPath found no path) without advancing either counter")
+    if fail is None and st_["narrow"]:
+        fail = (st_["narrow"][0][0], "recorded-finding class: " + st_["narrow"][0][1])
     d = diff(ck, impl, model)
     for i, ln in enumerate(script[1:]):
         print("%-60s impl:  %s" % (ln[:60], impl[i] if i < len(impl) else "<missing>"))
